@@ -231,7 +231,21 @@ def run(tier: str) -> int:
     fixed = [[{"bases": [], "own": {"js": ["a.js"], "css": None, "extend": False}, "pair": {}},
               {"bases": [], "own": {"js": ["b.js"], "css": None, "extend": True}, "pair": {}},
               {"bases": [0, 1], "own": None, "pair": {}}]]
-    gens = fixed + [gen_hier(core.rng(PROP, "hier", i)) for i in range(n)]
+    # directed diamonds: a class that defines nothing at all next to a sibling that overrides (seeded/C16-5: the empty
+    # class shared its ancestor's state record, so the MRO walk stopped at the ancestor's values)
+    def diamond(r):
+        full = {"js": "js-of-0", "css": "css-of-0", "template": "template-of-0"}
+        over = {k: v.replace("-0", "-2") for k, v in full.items() if r.random() < 0.8} or {"template": "template-of-2"}
+        media = lambda i: ({"js": ["m%d.js" % i], "css": None, "extend": True} if r.random() < 0.5 else None)
+        cls = [{"bases": [], "own": media(0), "pair": dict(full)},
+               {"bases": [0], "own": None, "pair": {}},                                  # Plain(Base): nothing
+               {"bases": [0], "own": media(2), "pair": over},                            # Themed(Base): overrides
+               {"bases": [1, 2] if r.random() < 0.7 else [2, 1], "own": media(3), "pair": {}}]   # Widget(Plain, Themed)
+        if r.random() < 0.4:
+            cls.append({"bases": [3], "own": None, "pair": {}})
+        return cls
+    directed = [diamond(core.rng(PROP, "diamond", i)) for i in range(6 if tier == "quick" else 60)]
+    gens = fixed + directed + [gen_hier(core.rng(PROP, "hier", i)) for i in range(n)]
     prepared = []
     for gi, classes in enumerate(gens):
         objs = build(classes)
